@@ -794,3 +794,61 @@ example (f g : Nat → ℚ) : ∃ a, (⟨.div, .forward, .order1, (3 : ℚ), fal
       = - ∑ j ∈ range 4, f j * fd den (tbl a.method a.pad) 4 a.c (1 / 2) g j := by
   simpa using C13.op_adjoint_is_transpose (⟨.div, .forward, .order1, (3 : ℚ), false⟩ : Op ℚ)
     (by decide) (by simp [Op.isLinear, affineAware]) 4 (by decide) (by decide) (1 / 2) f g
+
+/-! ### Divergence as a sum of stencils -/
+
+/-- `Divergence._call` (the executed in-order accumulation `out = tmp₀; out += tmpₐ`) equals the
+sum over the axes of the method's textbook stencil on the padded line of component `a`
+through `x`, divided by `dxₐ` - for the extension pad modes, any `pad_const`, any shape,
+`ndim ≤ 3`.  (Gradient components are `pd_eq_stencil_ext`, the Laplacian is
+`laplacian_eq_second_difference`.) -/
+theorem C13.divergence_eq_stencil_sum {K : Type} [Field K] [CharZero K] (m : Method) (p : Pad)
+    (hp : stencilCase m p = true) (shape : Nat → Nat) (d : Nat) (hd : d ≤ 3)
+    (hs : ∀ a < d, nMin p ≤ shape a) (c : K) (dx : Nat → K) (H : Nat → Idx → K) (x : Idx)
+    (hx : ∀ a < d, x.get a < shape a) :
+    divergence den (tbl m p) shape d c dx H x
+      = ∑ a ∈ range d,
+          stencil m (padded p (shape a) c (fun q => H a (x.set a q))) (x.get a) / dx a := by
+  have e : ∀ a < d, fdAxis den (tbl m p) shape a c (dx a) (H a) x
+      = stencil m (padded p (shape a) c (fun q => H a (x.set a q))) (x.get a) / dx a :=
+    fun a ha => C13.pd_eq_stencil_ext m p hp shape a (hs a ha) c (dx a) (H a) x (hx a ha)
+  rcases (show d = 0 ∨ d = 1 ∨ d = 2 ∨ d = 3 by omega) with rfl | rfl | rfl | rfl
+  · simp [divergence]
+  · simp only [divergence, List.range_succ, List.range_zero, List.nil_append, List.cons_append,
+      List.foldl_cons, List.foldl_nil, zero_add, sum_range_succ, sum_range_zero, e 0 (by omega)]
+  · simp only [divergence, List.range_succ, List.range_zero, List.nil_append, List.cons_append,
+      List.foldl_cons, List.foldl_nil, zero_add, sum_range_succ, sum_range_zero, e 0 (by omega),
+      e 1 (by omega)]
+  · simp only [divergence, List.range_succ, List.range_zero, List.nil_append, List.cons_append,
+      List.foldl_cons, List.foldl_nil, zero_add, sum_range_succ, sum_range_zero, e 0 (by omega),
+      e 1 (by omega), e 2 (by omega)]
+
+/-- `Divergence.derivative`: for any leaf, any `pad_const`, shape, `ndim ≤ 3`:
+`div_c(H + L) − div_c(H) = div_0(L)` (N-d, multi-component form of `fd_affine`). -/
+theorem C13.divergence_affine {K : Type} [Field K] (t : Table) (shape : Nat → Nat) (d : Nat)
+    (hd : d ≤ 3) (hs : ∀ a < d, 2 ≤ shape a) (c : K) (dx : Nat → K) (H L : Nat → Idx → K)
+    (x : Idx) :
+    divergence den t shape d c dx (fun a y => H a y + L a y) x - divergence den t shape d c dx H x
+      = divergence den t shape d 0 dx L x := by
+  have e : ∀ a < d, fdAxis den t shape a c (dx a) (fun y => H a y + L a y) x
+      = fdAxis den t shape a c (dx a) (H a) x + fdAxis den t shape a 0 (dx a) (L a) x :=
+    fun a ha => by rw [← C13.pd_affine t shape a (hs a ha) c (dx a) (H a) (L a) x]; ring
+  rcases (show d = 0 ∨ d = 1 ∨ d = 2 ∨ d = 3 by omega) with rfl | rfl | rfl | rfl
+  · simp [divergence]
+  · simp only [divergence, List.range_succ, List.range_zero, List.nil_append, List.cons_append,
+      List.foldl_cons, List.foldl_nil, zero_add, e 0 (by omega)]; ring
+  · simp only [divergence, List.range_succ, List.range_zero, List.nil_append, List.cons_append,
+      List.foldl_cons, List.foldl_nil, zero_add, e 0 (by omega), e 1 (by omega)]; ring
+  · simp only [divergence, List.range_succ, List.range_zero, List.nil_append, List.cons_append,
+      List.foldl_cons, List.foldl_nil, zero_add, e 0 (by omega), e 1 (by omega), e 2 (by omega)]
+    ring
+
+example (H : Nat → Idx → ℚ) :
+    divergence den (tbl .backward .periodic) (fun a => if a = 0 then 2 else if a = 1 then 3 else 1)
+        2 0 (fun _ => 1 / 2) H (1, 2, 0)
+      = ∑ a ∈ range 2, stencil .backward (padded .periodic
+          ((fun a => if a = 0 then 2 else if a = 1 then 3 else 1) a) 0
+          (fun q => H a (Idx.set (1, 2, 0) a q))) (Idx.get (1, 2, 0) a) / (1 / 2) :=
+  C13.divergence_eq_stencil_sum .backward .periodic rfl _ 2 (by decide)
+    (by intro a ha; rcases (show a = 0 ∨ a = 1 by omega) with rfl | rfl <;> simp [nMin]) 0 _ H _
+    (by intro a ha; rcases (show a = 0 ∨ a = 1 by omega) with rfl | rfl <;> simp [Idx.get])
